@@ -549,6 +549,7 @@ void ExecImpl::final_cleanup() {
     for (auto& m : rmons) m.reset();
     for (auto& w : rwatched) { delete w; w = nullptr; }
     for (auto& r : rmocks) { delete r.a; delete r.m; r.a = nullptr; r.m = nullptr; }
+    moved_from_seqs.clear();
     rseqs.clear();
     while (!rtracers.empty()) rtracers.pop_back();
     rexps.clear();
